@@ -10,7 +10,7 @@ import time
 import scope
 from common import NCPU, Machinery, Scratch, nucs_env, read_ndjson, run_workers, validate_shards
 
-QUICK_PER_FAMILY = 1000
+QUICK_PER_FAMILY = 2500
 THOROUGH_PER_FAMILY = 120_000
 
 
